@@ -197,6 +197,10 @@ def run(ctx):
     ctx.rule("C10.R9", "the BCF dictionary of strings only grows: resize of StringMap.entries is growth-guarded, no other shortening operation")
     grow_only_rule(ctx, "C10.R9", "noodles_vcf::header::string_maps::string_map::StringMap", "entries", "noodles_vcf::header::string_maps", 1)
 
+    ctx.rule("C10.R10", "A7 sibling order: the VCF header writer (whose text the BCF reader numbers the dictionary from) and "
+                        "StringMaps::try_from(&Header) (which the BCF writer numbers it with) visit INFO / FILTER / FORMAT in the same order")
+    dictionary_order_rule(ctx, "C10.R10")
+
     ctx.rule("C10.R4", "string-map lookups on decode are error exits on a missing index")
     n = 0
     for k, f in sorted(fb.fns.items()):
@@ -281,3 +285,40 @@ def grow_only_rule(ctx, rule, adt_key, field, scope_prefix, floor):
                               "index below the current length drops every entry above it while the name->index table keeps them" % (
                                   k, adt_key.split("::")[-1], field), f.loc(bi))
     ctx.floor(rule, "length-changing Vec operations on %s.%s" % (adt_key.split("::")[-1], field), n, floor)
+
+
+def dictionary_order_rule(ctx, rule):
+    """BCF numbers the dictionary of strings implicitly: the writer by the order in which StringMaps::try_from(&Header) visits the
+    header collections, the reader by the order of the lines of the embedded header TEXT. The text is produced by the VCF header
+    writer, so both must visit {INFO, FILTER, FORMAT} in the same relative order (contigs have their own dictionary)."""
+    fb = ctx.fb
+    W = "noodles_vcf::io::writer::header::write_header"
+    T = "<noodles_vcf::header::string_maps::StringMaps as core::convert::TryFrom<&noodles_vcf::header::Header>>::try_from"
+    seqs = {}
+    for key in (W, T):
+        f = ctx.body(rule, key)
+        if f is None:
+            return
+        sites = {}
+        for bi, c in f.calls():
+            m = re.search(r"noodles_vcf::header::Header::(infos|filters|formats)$", c.get("f") or "")
+            if m and m.group(1) not in sites:
+                sites[m.group(1)] = bi
+        if len(sites) != 3:
+            ctx.violation(rule, "%s/ANCHOR-MISSING/%s/collections" % (rule, key), "%s no longer visits infos, filters and formats (found %s)" % (key, sorted(sites)), f.loc())
+            return
+        order = sorted(sites, key=lambda n: sum(1 for m2 in sites if m2 != n and C.dominates(f, sites[m2], sites[n])))
+        # a total order needs pairwise dominance
+        total = all(C.dominates(f, sites[a], sites[b]) for i, a in enumerate(order) for b in order[i + 1:])
+        if not total:
+            ctx.ok(rule, key, "collections are not visited in a fixed order (branches): not decided", f.loc())
+            return
+        seqs[key] = (order, f)
+    (ow, fw), (ot, ft) = seqs[W], seqs[T]
+    if ow != ot:
+        ctx.violation(rule, "%s/dictionary-order/%s" % (rule, W),
+                      "the VCF header writer emits the %s lines in the order %s, StringMaps::try_from numbers the dictionary in the order %s: "
+                      "the BCF reader numbers it from the text, so every FILTER/INFO/FORMAT index written into a record resolves to a "
+                      "different key on read" % ("/".join(x.upper()[:-1] for x in ow), " < ".join(ow), " < ".join(ot)), fw.loc())
+    else:
+        ctx.ok(rule, "write_header and StringMaps::try_from visit %s in the same order" % " < ".join(ow), "", fw.loc())
